@@ -145,7 +145,7 @@ def sort(iterable):
     if _has_nan(iterable):
         return sorted(iterable, key = Cmp)
     try:
-        return sorted(iterable)
+        return sorted(iterable, key = as_primitive) # numpy compares a python int with a np.float64 (an np.int64 with a float) in float64, where 2**53+1 == 2**53: order the plain values, as cmp does
     except TypeError:
         return sorted(iterable, key = Cmp)
 
